@@ -367,6 +367,39 @@ func checkC19(c *Ctx, r *Report) {
 	r.Check(foundTrue, "R19d", c.FnName(nfkv), "bare key is true", c.Pos(nfkv.Pos()), "constant true flows into the value stored under the key", "no path stores the constant true as the value of a bare key")
 	loaderNormalisesRule(c, r)
 	addNilConfigRule(c, r)
+	loaderErrorPairRule(c, r)
+}
+
+// loaderErrorPairRule (R19g): a flag loader answers (config, error for the collector, error for the flag package).
+// The two errors are one: what Set reports to the flag package is what the collector latches — an error that is
+// only reported lets the collection go on as if nothing had happened (Error() stays nil, later arguments are still
+// merged), an error that is only latched makes Set succeed for an argument that was refused.
+func loaderErrorPairRule(c *Ctx, r *Report) {
+	r.Rule("R19g", "an error a flag loader reports to the flag package is the one it hands to the collector (never reported without being latched)", 2)
+	n := 0
+	for _, top := range c.SrcFuncs() {
+		if top.Pkg != c.SSA["flag"] || top.Parent() != nil {
+			continue
+		}
+		for _, fn := range WithAnon(top) {
+			res := fn.Signature.Results()
+			if fn.Parent() == nil || res.Len() != 3 || typeStr(res.At(1).Type()) != "error" || typeStr(res.At(2).Type()) != "error" {
+				continue
+			}
+			for _, ret := range Returns(fn) {
+				n++
+				a, b := RetVal(ret, 1), RetVal(ret, 2)
+				// (the file loader latches its errors and lets Set succeed, so that parsing goes on: an error for the
+				// collector alone is the design; an error for the flag package alone is lost to Error() and to the latch)
+				same := a == b || IsNilConst(b) || SameValue(a, b) || sameSrc(a, b)
+				r.Check(same, "R19g", c.FnName(fn), "one error for both", c.Pos(ret.Pos()), "the collector's error is the reported error",
+					"a flag loader returns different errors for the collector ("+a.String()+") and for the flag package ("+b.String()+"): Set fails while Error() stays nil and the collection goes on, or the other way round")
+			}
+		}
+	}
+	if n == 0 {
+		r.add("R19g", "flag loaders", "one error for both", "-", Undecided, true, "no loader with an (config, error, error) result found")
+	}
 }
 
 // addNilConfigRule (R19f): the loaders answer an ignored argument (`key=`) with no config and no error (R19d), so
